@@ -121,7 +121,7 @@ class C18(Machine):
 
     def plan(self, tier):
         if tier == 'quick':
-            return {'runs': 400, 'budget_s': 500, 'det_runs': 3,
+            return {'runs': 400, 'budget_s': 900, 'det_runs': 3,
                     'run_timeout': 300, 'shrink_s': 200}
         return {'runs': 12000, 'budget_s': 3000, 'det_runs': 4,
                 'run_timeout': 400, 'shrink_s': 300}
